@@ -22,12 +22,15 @@ EXTENDS History, TraceBase
 \* - parameterless calls under a non-coercing pydantic validator: 28 pv0.whoami() (context by name) 29 pv0.ping()
 \* - two functions behind ONE ordinary decorator (one shared code object, different signatures): 30 add(1,2) 31 neg(5)
 \* - a context-less class based view that keeps scratch data on itself: 32 scratch.note('a') 33 scratch.note('x')
+\* - three functions under one pydantic validator that differ only in the TYPE of a default (1, TRUE, 1.0 - equal in Python,
+\*   different in JSON), called without parameters: 34 dflt.one() 35 dflt.true() 36 dflt.float()
 TwinOutcome == <<"int", "str", "invalid", "invalid", "int", "str", "invalid", "invalid",
                  "ok", "ok", "invalid", "invalid", "ctx", "pong", "ctx2", "invalid", "a_and_5", "a_and_ctx", "a_and_none",
                  "ok", "ok", "invalid", "int", "invalid", "int", "int",
-                 "123", "ctx", "pong", "3", "-5", "noted:a", "noted:x">>
+                 "123", "ctx", "pong", "3", "-5", "noted:a", "noted:x",
+                 "int:1", "bool:True", "float:1.0">>
 TraceInit == tid \in 1..NTraces /\ l = 1 /\ InitWith("typed")
-TCall == IsEvent("Call") /\ E.c \in 1..33 /\ Serve(E.c) /\ E.outcome = TwinOutcome[E.c]
+TCall == IsEvent("Call") /\ E.c \in 1..36 /\ Serve(E.c) /\ E.outcome = TwinOutcome[E.c]
 TraceNext == TCall
 TraceConstraint == NothingRetained /\ Progress
 =============================================================================
